@@ -197,6 +197,7 @@ Lemma Inv_step m o m' : Inv m -> step m o = Ok m' -> Inv m'.
 Proof.
   intros H Hs. destruct o; simpl in Hs.
   - rewrite collect_topo_ok in Hs. inversion Hs; subst. apply Inv_topo, H.
+  - unfold collect_asm in Hs. rewrite collect_topo_ok in Hs. inversion Hs; subst. apply Inv_topo, H.
   - inversion Hs; subst. apply Inv_node, H.
   - rewrite collect_svc_ok in Hs. inversion Hs; subst. apply Inv_svc, H.
   - inversion Hs; subst. apply Inv_arg; [apply Inv_arg|]; try allowed.
